@@ -301,14 +301,25 @@ def location_gating(rep: Report, rid: str) -> None:
                 continue
             goal = pc_parse(ast.parse(want[0], mode='eval').body)
             bad = None
+            missing = None
+            from ..pathcond import satisfiable as _sat, f_and as _f_and
             for x in at_ctor:
                 kinds = [f.split('=', 1)[1] for f in x[2] if f.startswith(f'val:{v.id}=')]
                 kind = kinds[0] if kinds else 'unassigned'
                 if kind == 'None':
+                    if _sat(_f_and(x[0], goal)):
+                        missing = x
                     continue
                 gens.setdefault(loc, set()).add(kind)
                 if kind == 'unassigned' or pc_entails(x[0], goal) is not True:
                     bad = (kind, x)
+            if missing is not None:
+                rep.fail(rid, c, f'{loc} whenever requested',
+                         f'the `{loc}` generator stays None on a path where {want} can hold '
+                         f'(path condition: {pc_show(missing[0])[:120]}): a selected location gets no protection data',
+                         fn)
+            else:
+                rep.ok(rid, c, f'{loc} whenever requested')
             if bad is None:
                 rep.ok(rid, c, loc, f'non-None only under {want}')
             else:
